@@ -19,12 +19,6 @@ from vlib import core
 
 MODULES = ["HmsProofs.C03"]
 
-# zones of open findings (DESIGN §9 / known_findings.json); the generators stay away from them
-OPEN_ZONES = {
-    # finding id -> (generator `avoid` tags, mutation rules that depend on it)
-}
-
-
 def parse_go(line):
     """-> dict(status=ok|syntax|panic|crash, v=[classes], w, i, syn, p=sexp, t=types string)"""
     if line.startswith(("CRASH", "HANG", "PANIC")):
@@ -143,6 +137,13 @@ def judge(ctx, cases, with_model, stats):
             continue
         stats["model-judged"] += 1
         if l["status"] != "ok" or l["v"] != g["v"] or l["t"] != g["t"]:
+            if l["status"] == "ok" and c.expect is None and bool(l["v"]) != bool(g["v"]):
+                # no generator expectation: the model (proved equivalent to the typing relation) is the oracle
+                want = "reject" if l["v"] else "accept"
+                ctx.violation(c.replay(expect=want, model=l["v"], go=g["v"]),
+                              f"{'ill' if l['v'] else 'well'}-typed program {'accepted' if l['v'] else 'rejected'} "
+                              f"({c.label}; judged by the model: {','.join(l['r']) or '-'}; analyzer: {','.join(g['v']) or '-'})")
+                continue
             tie_bad += 1
             if tie_bad <= 3:
                 what = "verdict" if l.get("v") != g["v"] else "types"
